@@ -114,7 +114,12 @@ func (c *ctx) rangeSmallSection(r *lib.RNG, out chan<- batch, rcfg string) {
 				}
 			}
 			p := rp(first, first)
-			res.Hit("range-small:empty:" + divergenceShape(p, rootHex, first))
+			shape := divergenceShape(p, rootHex, first)
+			res.Hit("range-small:empty:" + shape)
+			if kind != "honest-empty-range" {
+				// the cause of a wrong acceptance depends on where `first` leaves the trie
+				kind = "empty-range-claimed-left-of-entries:first-" + shape
+			}
 			eval(&RangeClaim{Impl: "trie2", Kind: kind, Trie: kvs, Root: rootHex, First: first, Proof: p})
 			// --- ranges first..last
 			for hi := range kvs {
